@@ -1887,7 +1887,8 @@ class ConstraintSignature(BaseSignature):
         return (other is not None and
                 self.name == other.name and
                 self.type is other.type and
-                dict.__eq__(self.attrs, other.attrs))
+                dict.__eq__(self._get_normalized_attrs(),
+                            other._get_normalized_attrs()))
 
     def __hash__(self):
         """Return a hash of the signature.
@@ -1898,7 +1899,8 @@ class ConstraintSignature(BaseSignature):
             int:
             The hash of the signature.
         """
-        return hash(repr(self))
+        return hash('<ConstraintSignature(name=%r, type=%r, attrs=%r)>'
+                    % (self.name, self.type, self._get_normalized_attrs()))
 
     def __repr__(self):
         """Return a string representation of the signature.
@@ -1909,6 +1911,22 @@ class ConstraintSignature(BaseSignature):
         """
         return ('<ConstraintSignature(name=%r, type=%r, attrs=%r)>'
                 % (self.name, self.type, self.attrs))
+
+    def _get_normalized_attrs(self):
+        """Return the attributes in the form a stored signature gives them.
+
+        A stored signature can only represent lists, so an attribute provided
+        as a tuple (such as ``UniqueConstraint.fields``) is loaded back as a
+        list. Both forms must compare as equal.
+
+        Returns:
+            dict:
+            The attributes, with any tuple values converted to lists.
+        """
+        return dict(
+            (key, (list(value) if isinstance(value, tuple) else value))
+            for key, value in six.iteritems(self.attrs or {})
+        )
 
     def _serialize_attr_value(self, value):
         """Return a serialized version of a constraint attribute value.
